@@ -967,8 +967,8 @@ def run(res, tier, seed):
     rdepth = 3 if quick else 4
     idepth = 2 if quick else 3
     res.bound = ("registry: histories of length <= %d after an initial model 'A' over new / read / rename(+-rename_old) / close / "
-                 "edit / implicit-current-model ops, <= 3 models open, names {auto, A, B, C, next backup name of A, second next, "
-                 "next auto name, own name, invalid}; isolation: 5 set-ups (independent, cross-model reference + bystander, "
+                 "edit / implicit-current-model ops, <= 3 models open (+ one auto-named model more), names {auto, A, B, C, next backup name of A, second next, "
+                 "next auto name, second next auto name, own name, invalid}; isolation: 5 set-ups (independent, cross-model reference + bystander, "
                  "both read from one file, name re-used, shared function/list objects) x edit sequences of length <= %d over "
                  "%d edit kinds on either model%s" % (rdepth, idepth, len(EDITS),
                                                      "" if quick else "; plus seeded random registry histories of length 5-8"))
